@@ -1,6 +1,8 @@
 """Per-property specification: which driver / shims, budgets per tier, the
 stated non-triviality rule and the assumptions reported in the evidence."""
 
+from . import fuzz as _fz
+
 SPECS = {}
 HOOK_COMMITS = []
 HOOKS_NOTE = 'no source hook is needed so far: instrumentation is external (own <ev.h>, #include of echsd.c/echsq.c into harness TUs, macro/link-time interposition)'
@@ -157,6 +159,7 @@ SPECS['C09'] = dict(
           'full parser/stream path in a forked ASan child. non-trivial = the rule has a list, an INTERVAL or a COUNT (not a plain single-value rule); distinct = case text'),
     assumptions=['a budget overrun is only reported after the same case also overran a 3x budget',
                  'what dates come out is not judged here'],
+    fuzz=dict(src='f_c09.cpp', shims=['sut_strm', 'sut_fill', 'sut_inst'], corpus='corpus/C09', to_case=_fz.c09_case, seconds={'quick': 25, 'thorough': 900}),
     quick=dict(workers=16, cases=1500, size=100, timeout=1500),
     thorough=dict(workers=16, cases=30000, size=100, timeout=7200),
 )
@@ -213,4 +216,21 @@ SPECS['C03'] = dict(
                  'a duplicate instant inside one RDATE list is one occurrence (RFC 5545 set semantics)'],
     quick=dict(workers=16, cases=2000, size=100, timeout=1500, opts={'maxops': 120}),
     thorough=dict(workers=16, cases=20000, size=100, timeout=7200, opts={'maxops': 600}),
+)
+
+SPECS['C10'] = dict(
+    kind='native', drivers=['p_c10.cpp'], shims=['sut_strm'], with_lib=True,
+    level='exploration',
+    technique='differential testing of the pull parser across chunk partitions of generated calendars (rapidcheck) and a libFuzzer target with the same oracle inside',
+    level_text=('Generated calendars (1-3 events with all task fields and generated RRULEs, folded at generated columns, CRLF or LF, escapes, VALARM blocks, >2 KiB lines, '
+                'METHOD variants, truncated tails, two calendars back to back) are fed all at once and in a dozen partitions (1-byte, 2-byte, after every LF, between CR and LF, '
+                'inside folds, after backslashes, around colons, 4096 blocks, random); every instruction dump (verb, UID, all fields, first 12 occurrences with durations) must be identical, '
+                'each chunk lives in an exact-size heap block under ASan. fuzz/f_c10 drives the same comparison from coverage-guided bytes.'),
+    level_note='what a garbage input means is not judged, only that all partitions agree and nothing overruns or loops; each chunk stays valid until the next push, as in echse/echsd/echsx',
+    rule=('case = (calendar bytes, partition); evaluations count (input, partition) pairs. non-trivial = the input yields at least one instruction and the partition cuts inside lines '
+          '(not only at line ends / 4096 blocks); distinct = hash of (bytes, partition name)'),
+    assumptions=['zero-length pushes are not issued', 'the caller keeps a pushed buffer valid until the next push or the last pull (every caller in the repo does)'],
+    fuzz=dict(src='f_c10.cpp', shims=['sut_strm'], corpus='corpus/C10', to_case=_fz.c10_case, seconds={'quick': 25, 'thorough': 900}),
+    quick=dict(workers=16, cases=60, size=100, timeout=1500),
+    thorough=dict(workers=16, cases=3000, size=100, timeout=7200),
 )
